@@ -1,5 +1,6 @@
 import ExoVerif.Driver.Common
 import ExoVerif.Model.Oracle
+import ExoVerif.Model.OracleParams
 /- driver for the C12/C13/C14 correspondence (ops `orc.*`, see harness/dom_oracle.go) -/
 namespace ExoVerif.Driver.Oracle
 open ExoVerif.Oracle ExoVerif.Driver
@@ -222,6 +223,10 @@ def step (s : State) (w : List String) : State × String :=
         (s', showOut out ++ "|" ++ fullObs s')
       | none => (s, "bad-op")
     | _ => (s, "bad-op")
+  | ["orc.updparams.rej", _why] =>
+    -- a MsgUpdateParams that the real handler refused (the reason is informative only): Model/OracleParams.lean
+    let (s', ok) := updateParams s refusedUpdate
+    (s', (if ok then "ok" else "rej") ++ "|" ++ fullObs s')
   | ["orc.end", upd] =>
     match endBlock s (parseUpdates upd) with
     | some s' => (s', fullObs s')
